@@ -8,6 +8,7 @@ import (
 	"go/constant"
 	"go/token"
 	"go/types"
+	"sort"
 	"strings"
 
 	"golang.org/x/tools/go/ssa"
@@ -2196,4 +2197,242 @@ func c11MarshalArg(v ssa.Value) ssa.Value {
 		return nil
 	}
 	return nil
+}
+
+// ---- what SignOCI's success stands for -----------------------------------------------------------
+
+// c11SuccessGates: the gates behind Signer.Sign. The property says that signing "produces a signature … attaches it to
+// that resolved artifact with annotations giving the thumbprints … and the signing time", and that signing again
+// "succeeds again". Three must-pass facts are necessary for that, whatever the code looks like:
+//
+//   - PushSignature runs only after Signer.Sign returned a nil error: otherwise the bytes pushed are whatever a failed
+//     signer left in its result (nil, a partial envelope) and they get attached to the artifact as its signature;
+//   - PushSignature runs only after the annotation generator returned a nil error: otherwise the signature manifest is
+//     attached without (or with half of) the thumbprint / created annotations;
+//   - every exit of SignOCI that can return a nil error has passed "PushSignature returned a nil error": otherwise the
+//     caller is told the artifact is signed although nothing was stored. The documented exception (the referrers index
+//     could not be cleaned up) hands the push error on, so it is not a success exit and is not constrained here.
+//
+// All three are decided as must-pass facts of the engine (GuardsOf for the effect site, the Checked labels of the
+// success-capable exits of the summary), so the spelling of the test is free: `if err != nil { return }`, `if err == nil
+// { … }`, a switch, nested ifs, a test inside a helper the summary composes, early or late.
+func c11SuccessGates(c *Ctx, W *ssa.Function, sign, gen, push *ssa.Call) {
+	w := c.W
+	fi := w.Info(W)
+	g := fi.GuardsOf(push)
+	c.Evals++
+	needPush := func(key, what string, call *ssa.Call) {
+		_, h := hasLabel(g, c11ErrLabel(call))
+		c.Check(h, "gate/"+key, "effect-site gate: PushSignature is reachable only through — "+what, w.InstrPos(push), "PushSignature is reachable although "+trunc(desc(call), 100)+" ("+w.InstrPos(call)+") returned an error; guards: "+summarizeLabels(g, 8))
+	}
+	needPush("push-after-sign", "a successful Signer.Sign (what is attached to the artifact is a signature the signer produced)", sign)
+	if gen != nil {
+		needPush("push-after-annotations", "successfully generated manifest annotations (thumbprints and signing time)", gen)
+	}
+	s := w.Summarize(W, Mode{Kind: mErr})
+	c.Evals += s.States
+	ok := len(s.Exits) > 0
+	why := ""
+	if !ok {
+		why = "no success-capable exit found"
+	}
+	for _, ex := range s.Exits {
+		if c11Contradictory(ex.Checked) {
+			continue
+		}
+		if _, h := hasLabel(ex.Checked, c11ErrLabel(push)); !h {
+			ok = false
+			why = "the exit at " + w.InstrPos(ex.Ret) + " can report success although PushSignature failed or was not reached; facts on every path to it: " + summarizeLabels(ex.Checked, 8)
+		}
+	}
+	c.Check(ok, "gate/success-after-push", "exit gate: SignOCI returns a nil error only through — a successful PushSignature (success means the signature was stored)", w.FnPos(W), why)
+}
+
+// c11Contradictory: the must-pass facts of an exit contain both "x == nil" and "x != nil" for the same x. Such an exit
+// is listed as success-capable only because the summary could not classify the error it returns (`if failed(err) {
+// return …, err }`: the verdict of the helper gives NE(err,nil), composing the returned error gives EQ(err,nil)); no
+// execution leaves through it with a nil error, so it is not an exit the success gates have to hold on.
+func c11Contradictory(checked map[string]string) bool {
+	for l := range checked {
+		if strings.HasPrefix(l, "EQ(") && strings.HasSuffix(l, ",nil)") {
+			if _, both := checked["NE("+l[3:]]; both {
+				return true
+			}
+		}
+	}
+	return false
+}
+
+// c11Feed collects, per function frame, the calls with an error result whose value results feed a given value:
+// through conversions, phis, extracts, arguments and receivers of further calls, local variables (every store into
+// them), and — for module helpers — the results the helper returns (the helper's own frame then has its own list).
+type c11Feed struct {
+	w    *World
+	seen map[ssa.Value]bool
+	need map[*ssa.Function][]*ssa.Call
+	n    int
+}
+
+func (f *c11Feed) walk(v ssa.Value, depth int) {
+	if v == nil || f.seen[v] || depth > 6 || f.n > 4000 {
+		return
+	}
+	f.seen[v] = true
+	f.n++
+	switch x := v.(type) {
+	case *ssa.Const, *ssa.Parameter, *ssa.Global, *ssa.FreeVar, *ssa.Function, *ssa.Builtin:
+		return
+	case *ssa.Extract:
+		if call, ok := x.Tuple.(*ssa.Call); ok {
+			f.call(call, x.Index, depth)
+			return
+		}
+	case *ssa.Call:
+		f.call(x, 0, depth)
+		return
+	case *ssa.Alloc:
+		f.stores(x, depth)
+		return
+	case *ssa.FieldAddr:
+		f.stores(x, depth)
+		f.walk(x.X, depth)
+		return
+	case *ssa.IndexAddr:
+		f.stores(x, depth)
+		f.walk(x.X, depth)
+		f.walk(x.Index, depth)
+		return
+	}
+	if in, ok := v.(ssa.Instruction); ok {
+		for _, op := range in.Operands(nil) {
+			if op != nil {
+				f.walk(*op, depth)
+			}
+		}
+	}
+}
+
+// stores: everything stored through the address, or through an element / field address derived from it.
+func (f *c11Feed) stores(addr ssa.Value, depth int) {
+	refs := addr.Referrers()
+	if refs == nil {
+		return
+	}
+	for _, r := range *refs {
+		switch x := r.(type) {
+		case *ssa.Store:
+			if x.Addr == addr {
+				f.walk(x.Val, depth)
+			}
+		case *ssa.FieldAddr:
+			if x.X == addr && !f.seen[x] {
+				f.seen[x] = true
+				f.stores(x, depth)
+			}
+		case *ssa.IndexAddr:
+			if x.X == addr && !f.seen[x] {
+				f.seen[x] = true
+				f.stores(x, depth)
+			}
+		}
+	}
+}
+
+func (f *c11Feed) call(call *ssa.Call, k int, depth int) {
+	res := call.Call.Signature().Results()
+	if n := res.Len(); n >= 2 && isErrorType(res.At(n-1).Type()) && k != n-1 {
+		fn := call.Parent()
+		dup := false
+		for _, o := range f.need[fn] {
+			dup = dup || o == call
+		}
+		if !dup {
+			f.need[fn] = append(f.need[fn], call)
+		}
+	}
+	if call.Call.IsInvoke() {
+		f.walk(call.Call.Value, depth)
+	}
+	for _, a := range call.Call.Args {
+		f.walk(a, depth)
+	}
+	if h := staticCallee(call); h != nil && h.Blocks != nil && f.w.IsProductFn(h) {
+		for _, b := range h.Blocks {
+			if r, ok := blockTerm(b).(*ssa.Return); ok && k < len(r.Results) {
+				f.walk(r.Results[k], depth+1)
+			}
+		}
+	}
+}
+
+// c11FallibleSources: the two generated annotations are computed from the SignerInfo by calls some of which can fail
+// (the signing time is missing; the encoder refuses). A result taken from a call that returned an error is not the
+// signing time / the thumbprint list — by the convention of the language it is the zero value — so a generator that
+// goes on and reports success hands SignOCI annotations that do not "give the thumbprints of the signing chain and the
+// signing time", and SignOCI attaches them. Necessary condition, decided per function frame: every success-capable
+// exit of the generator (and of every module helper whose result feeds one of the two values) has passed the nil-error
+// edge of every call with an error result whose value feeds the annotation. Must-pass facts of the summary: where and
+// how the error is tested (early return, inverted test, switch, a helper that wraps the call and hands the error on)
+// does not matter.
+func c11FallibleSources(c *Ctx, G *ssa.Function, keys ...string) {
+	w := c.W
+	feed := &c11Feed{w: w, seen: map[ssa.Value]bool{}, need: map[*ssa.Function][]*ssa.Call{}}
+	for _, b := range G.Blocks {
+		for _, in := range b.Instrs {
+			mu, ok := in.(*ssa.MapUpdate)
+			if !ok {
+				continue
+			}
+			k, ok := mu.Key.(*ssa.Const)
+			if !ok || k.Value == nil || k.Value.Kind() != constant.String {
+				continue
+			}
+			for _, want := range keys {
+				if want != "" && constant.StringVal(k.Value) == want {
+					feed.walk(mu.Value, 0)
+				}
+			}
+		}
+	}
+	rule := "the annotation generator succeeds only if every call with an error result whose value feeds the thumbprint or the created annotation returned a nil error (a failed computation is never stored as the thumbprints or the signing time of a signature reported as signed)"
+	var frames []*ssa.Function
+	for fn := range feed.need {
+		frames = append(frames, fn)
+	}
+	sort.Slice(frames, func(i, j int) bool { return frames[i].String() < frames[j].String() })
+	n := 0
+	ok, why := true, ""
+	for _, fn := range frames {
+		c.SeenFn(fn.String())
+		s := w.Summarize(fn, Mode{Kind: mErr})
+		c.Evals += s.States
+		for _, call := range feed.need[fn] {
+			n++
+			if len(s.Exits) == 0 && fn == G {
+				ok, why = false, fnName(fn)+" has no success-capable exit"
+			}
+			for _, ex := range s.Exits {
+				if c11Contradictory(ex.Checked) {
+					continue
+				}
+				if _, h := hasLabel(ex.Checked, c11ErrLabel(call)); !h {
+					ok = false
+					why = fnName(fn) + " can succeed at " + w.InstrPos(ex.Ret) + " although " + trunc(desc(call), 120) + " (" + w.InstrPos(call) + ") failed, and its result goes into a generated annotation"
+				}
+			}
+		}
+	}
+	if n == 0 {
+		c.Unk("annotations/fallible-sources", rule, w.FnPos(G), "no call with an error result feeds the generated annotations (the signing time is expected to come from envelope.SigningTime)")
+		return
+	}
+	c.Check(ok, "annotations/fallible-sources", rule, w.FnPos(G), why)
+}
+
+// c11AnnotationKeys: the two keys the generator is responsible for (the thumbprint key of the module, the created key
+// of the image spec).
+func c11AnnotationKeys(w *World) []string {
+	tk, _ := w.constString("internal/envelope", "AnnotationX509ChainThumbprint")
+	ck, _ := w.depConstString("github.com/opencontainers/image-spec/specs-go/v1", "AnnotationCreated")
+	return []string{tk, ck}
 }
